@@ -2,6 +2,7 @@ package checks
 
 import (
 	"bytes"
+	"encoding/binary"
 	"errors"
 	"fmt"
 	"math"
@@ -356,6 +357,20 @@ func runHostileImports(c *fw.Ctx, n int) {
 		}
 		store := seam.NewMemStore()
 		compress := rng.Intn(3) == 0
+		if compress && len(stream) > 0 && rng.Intn(2) == 0 {
+			// the compressed stream carries keys as uvarint(shared prefix length) + suffix: announce
+			// prefix lengths around every width the decoder may convert them to
+			for m := 0; m < 1+rng.Intn(2); m++ {
+				i := rng.Intn(len(stream))
+				shared := []uint64{0, 1, 2, 127, 128, 255, 256, 1 << 31, 1<<31 - 1, 1 << 32, 1<<63 - 1, 1 << 63, 1<<63 + 1, math.MaxUint64, math.MaxUint64 - 1}[rng.Intn(15)]
+				k := binary.AppendUvarint(nil, shared)
+				k = append(k, [][]byte{nil, {'a'}, {'z', 'z'}}[rng.Intn(3)]...)
+				cp := *stream[i]
+				cp.Key = k
+				stream[i] = &cp
+			}
+			c.Obs("hostile_compressed_streams_with_crafted_prefix_lengths", 1)
+		}
 		stopAtError := rng.Intn(2) == 0
 		fast := rng.Intn(2) == 0
 		committed := false
@@ -431,7 +446,7 @@ func init() {
 		Cases:       func(tier string) int { return tierN(tier, 640, 20000) },
 		CaseTimeout: 300e9,
 		Rule: "two case kinds by index mod 2. (0) fidelity: one history (10-40 ops; incl. empty tree, single leaf, versions whose root is inherited from an earlier version (reference root), pruning, rollback; 1 case in 39 (quick) / 9 (thorough) builds a tree of >10000 leaves so the import needs three 10000-node batches; for that tree every batch write is additionally failed once: the import must report it, leave nothing visible, and return (a call that never returns is decided from the goroutine dump: caller blocked inside iavl, nobody else inside iavl)); at up to 3 retained versions the Exporter stream is compared node by node with the reference post-order stream of R (key, value, version, height; must end with ErrorExportDone), then imported plain AND through CompressExporter->CompressImporter into fresh stores (random cache / fast index / flush threshold): root hash, latest version, the full model read battery, ICS-23 proofs against the SOURCE root, the raw-storage audit, and 2-4 further commits whose hashes must equal the reference continuing the source history. " +
-			"(1) totality: 150 (quick) / 1000 (thorough) hostile ExportNode sequences per case - mutations of valid streams (drop, duplicate, swap, truncate, heights/versions negative/0/too large/MaxInt64, nil or empty key/value, leaf/inner confusion) and random sequences - fed to Add..Commit (plain or compressed, stopping at the first error or ploughing on): a panic is a violation; if Commit did not succeed, a fresh tree on that store must Load() version 0 with no available versions. A hang trips the per-case watchdog. " +
+			"(1) totality: 150 (quick) / 1000 (thorough) hostile ExportNode sequences per case - mutations of valid streams (drop, duplicate, swap, truncate, heights/versions negative/0/too large/MaxInt64, nil or empty key/value, leaf/inner confusion; for the compressed importer also keys announcing shared-prefix lengths of 0, 1, 127..256, 2^31, 2^32, 2^63-1, 2^63, 2^64-1) and random sequences - fed to Add..Commit (plain or compressed, stopping at the first error or ploughing on): a panic is a violation; if Commit did not succeed, a fresh tree on that store must Load() version 0 with no available versions. A hang trips the per-case watchdog. " +
 			"distinct = hash(kind, config, ops / index); non-trivial = fidelity: >=1 round trip of a non-empty version with >=1 future commit; totality: always.",
 		Assumptions: []string{"R defines the export stream and future hashes; M the contents; ics23 verifier trusted"},
 		Run: func(c *fw.Ctx) {
